@@ -9,6 +9,9 @@
 (*          UserEditConf    the user edits the generated-once configure    *)
 (*                          file                                           *)
 (*          UserEditMain    the user edits a regenerated file (main.go)    *)
+(*  option sets of `generate server` include --implementation-package,    *)
+(*  which replaces the generated-once configure file by an auto_configure  *)
+(*  file that is regenerated on every run                                  *)
 (*          ToggleOp / ToggleDef  the spec gains / loses an operation or   *)
 (*                          a definition                                   *)
 (*                                                                         *)
@@ -22,13 +25,13 @@ EXTENDS Integers, Sequences, FiniteSets, TLC, Json
 CONSTANTS Ops, Defs, UserFiles, MaxHist
 
 Cmds    == {"server", "client", "model", "operation", "support"}
-OptSets == {"default", "regen_configure", "skip_models", "skip_operations", "skip_support", "exclude_main"}
+OptSets == {"default", "regen_configure", "skip_models", "skip_operations", "skip_support", "exclude_main", "impl_package"}
 OptsOf(cmd) == IF cmd = "server" THEN OptSets
                ELSE IF cmd = "support" THEN {"default", "regen_configure"} ELSE {"default"}
 
 P(k, n) == [k |-> k, n |-> n]
 Paths == {P("model", d) : d \in Defs} \cup {P("sop", o) : o \in Ops} \cup {P("cop", o) : o \in Ops}
-         \cup {P("support", "-"), P("main", "-"), P("configure", "-"), P("facade", "-")}
+         \cup {P("support", "-"), P("main", "-"), P("configure", "-"), P("autoconf", "-"), P("facade", "-")}
          \cup {P("user", u) : u \in UserFiles}
 
 VARIABLES spec, files, last, hist
@@ -55,7 +58,8 @@ Responsible(cmd, opt, sp) ==
          (IF opt = "skip_models" THEN {} ELSE Models(sp))
          \cup (IF opt = "skip_operations" THEN {} ELSE SOps(sp))
          \cup (IF opt = "skip_support" THEN {}
-               ELSE {P("support", "-"), P("configure", "-")} \cup (IF opt = "exclude_main" THEN {} ELSE {P("main", "-")}))
+               ELSE {P("support", "-"), IF opt = "impl_package" THEN P("autoconf", "-") ELSE P("configure", "-")}
+                    \cup (IF opt = "exclude_main" THEN {} ELSE {P("main", "-")}))
     [] cmd = "client"    -> Models(sp) \cup COps(sp) \cup {P("facade", "-")}
     [] cmd = "model"     -> Models(sp)
     [] cmd = "operation" -> SOps(sp)
@@ -121,6 +125,24 @@ Spec == Init /\ [][Next]_vars
 \* behaviours worth replaying start by generating something
 GenNext == IF hist = <<>> THEN \E cmd \in {"server", "client", "support"} : Gen(cmd, "default") ELSE Next
 GenSpec == Init /\ [][GenNext]_vars
+
+\* focused behaviours: run, one perturbation (user action or spec change), run again - exhaustively.
+\* FocusAll = FALSE: the second run repeats the first command (or is a plain `generate server`).
+CONSTANT FocusAll
+Perturb ==
+  \/ \E u \in UserFiles : UserAdd(u)
+  \/ \E k \in {"configure", "main"} : UserEdit(k)
+  \/ \E o \in Ops : ToggleOp(o)
+  \/ \E d \in Defs : ToggleDef(d)
+FocusNext ==
+  CASE Len(hist) = 0 -> \E cmd \in Cmds : \E opt \in OptsOf(cmd) : Gen(cmd, opt)
+    [] Len(hist) = 1 -> Perturb
+    [] Len(hist) = 2 -> \E cmd \in Cmds : \E opt \in OptsOf(cmd) :
+                          /\ (FocusAll \/ <<cmd, opt>> = <<hist[1].cmd, hist[1].opt>> \/ <<cmd, opt>> = <<"server", "default">>)
+                          /\ Gen(cmd, opt)
+    [] OTHER -> FALSE
+FocusSpec == Init /\ [][FocusNext]_vars
+EmitFocus == Len(hist) = 3 => PrintT(<<"CASE", ToJson([hist |-> hist])>>)
 
 \* ---- C11 on the design -------------------------------------------------------------------
 IsGen(l) == l.a = "gen"
